@@ -609,14 +609,19 @@ pub unsafe fn app(case: &Case, wp: *mut World) -> AppOut {
 }
 
 /// what the stream comparison found, if anything
+fn is_subseq(small: &[u8], big: &[u8]) -> bool {
+    let mut it = big.iter();
+    small.iter().all(|x| it.any(|y| y == x))
+}
+
 pub fn classify_stream(want: &[u8], got: &[u8]) -> Option<&'static str> {
     if want == got {
         return None;
     }
-    if got.len() < want.len() && want.starts_with(got) {
+    if got.len() < want.len() && is_subseq(got, want) {
         return Some("bytes-lost");
     }
-    if got.len() > want.len() && got.starts_with(want) {
+    if got.len() > want.len() && is_subseq(want, got) {
         return Some("bytes-duplicated");
     }
     let mut a = want.to_vec();
@@ -702,7 +707,7 @@ pub fn run_exec(case: &Case, prefix: &[u8], menu: Menu) -> Exec {
                             ));
                         }
                     } else if !written.starts_with(got) {
-                        let kind = classify_stream(&written[..got.len().min(written.len())], got).unwrap_or("bytes-reordered");
+                        let kind = classify_stream(written, got).unwrap_or("bytes-reordered");
                         viol.push((
                             format!("C16:{op}:{kind}"),
                             format!("the peer wrote {:?} so far, the reads delivered {:?}", common::show_bytes(written), common::show_bytes(got)),
